@@ -19,9 +19,15 @@ RULE = ("a client and a server exchange packets of all modes, one side calls dis
 
 BUDGET_NS = 22_000 * 10**6
 
-def scenario(r, it, tier, k, force=None):
+def scenario(r, it, tier, k, force=None, edge=False):
+    """edge: both endpoints accept at most m fragments of packet data (max_receive_alloc = max_packet_size = m * 1448); the last two
+    Reliable packets before disconnect() are a short one and one that fits the peer's remaining allowance by its byte length but not
+    by its whole-fragment footprint - the sender has to hold it back until the first is acknowledged, or the receiver discards it."""
     sim = EpSim(r, inter=it)
-    sim.srv(8, 8, r.pick([0, 1]), dict(DEFAULT_EP))
+    F = 1448
+    m = r.range(2, 6)
+    base_cfg = dict(DEFAULT_EP) if not edge else dict(DEFAULT_EP, maxpkt=m * F, alloc=m * F)
+    sim.srv(8, 8, r.pick([0, 1]), dict(base_cfg))
     lat = r.pick([0, 5_000_000, 40_000_000])
     if (not force) and k % 4 == 2 and lat == 0:
         lat = 40_000_000      # crossing requests: with no latency the side that steps second hears the request before it sends its own
@@ -31,7 +37,7 @@ def scenario(r, it, tier, k, force=None):
     sim.nets = lossy
     dt = r.pick([5_000_000, 20_000_000, 100_000_000])
     sim.dt = dt
-    sim.cli(0, dict(DEFAULT_EP), clean)
+    sim.cli(0, dict(base_cfg), clean)
     caller = r.pick(["c", "s"])
     mode_call = r.pick(["disc", "disc", "disc", "discnow"])
     sim.caller = caller; sim.mode_call = mode_call
@@ -48,7 +54,11 @@ def scenario(r, it, tier, k, force=None):
                 sim.send(caller, 0, r.below(3), r.pick([3, 3, 2, 1]), r.pick([0, 5, 100, 1448, 3000]))
         if r.chance(1, 6):
             sim.send("c" if caller == "s" else "s", 0, 0, 3, 50)
-    sim.run(r.range(5, 60), dt, lossy, traffic)
+    if edge:
+        force = "edge"
+        sim.run(r.range(5, 20), dt, clean)
+    else:
+        sim.run(r.range(5, 60), dt, lossy, traffic)
     crossing = (not force) and k % 4 == 2        # both sides ask for the disconnect before either has heard of the other's request
     style = r.pick(["busy", "quiet", "quiet"]) if not force else "quiet"
     if crossing and k % 8 == 2:
@@ -57,7 +67,13 @@ def scenario(r, it, tier, k, force=None):
         # let everything be acknowledged first, so that the last packet is the only thing in flight
         sim.run(r.range(30, 80), max(dt, 20_000_000), clean)
     # the last packet(s) and the call
-    if force:
+    if edge:
+        x = r.pick([1, 10, 100, 700, F - 1])
+        d = r.pick([0, 0, 1, 5]); d = min(d, F - 1 - x)
+        sim.send(caller, 0, r.below(3), 3, x)
+        sim.send(caller, 0, r.below(3), 3, m * F - x - d)
+        mode_call = "disc"
+    elif force:
         sim.send(caller, 0, r.below(3), 3, r.pick([0, 0, 1]))
         mode_call = "disc"
     else:
@@ -84,7 +100,7 @@ def streams(rng, tier, ctx):
         for k in range(n):
             r = rng.fork()
             it.op("=== gen%d" % k)
-            sim = scenario(r, it, tier, k)
+            sim = scenario(r, it, tier, k, edge=(k % 8 == 5))
             cid = "d%d" % k
             cases.append((cid, sim.ops)); meta[cid] = sim
     finally:
